@@ -125,7 +125,37 @@ func (u *Unit) execStmt(s ast.Stmt, st *State) []Outcome {
 		return []Outcome{{kind: oNormal, st: st}}
 	case *ast.LabeledStmt:
 		return u.execStmt(s.Stmt, st)
-	case *ast.DeferStmt, *ast.GoStmt, *ast.SelectStmt, *ast.SendStmt:
+	case *ast.DeferStmt:
+		// a deferred call runs when the function returns. Supported: a direct call (no function literal) at the
+		// top level of the function whose receiver/arguments are not assigned afterwards (they are evaluated
+		// when the call runs). Its results -- an error included -- are discarded by Go.
+		if _, isLit := ast.Unparen(s.Call.Fun).(*ast.FuncLit); isLit || len(u.inlineStack) > 0 || u.fi == nil {
+			u.fail("deferred function literal / defer in inlined code is outside the verified subset at %s", u.pos(s))
+		}
+		used := map[types.Object]bool{}
+		ast.Inspect(s.Call, func(n ast.Node) bool {
+			if id, ok := n.(*ast.Ident); ok {
+				if o := u.info.Uses[id]; o != nil {
+					if _, isVar := o.(*types.Var); isVar {
+						used[o] = true
+					}
+				}
+			}
+			return true
+		})
+		ast.Inspect(u.fi.Decl.Body, func(n ast.Node) bool {
+			if as, ok := n.(*ast.AssignStmt); ok && as.Pos() > s.End() {
+				for _, l := range as.Lhs {
+					if id, ok := l.(*ast.Ident); ok && used[u.info.Uses[id]] {
+						u.fail("a variable used by a deferred call is assigned after the defer statement (outside the verified subset) at %s", u.pos(as))
+					}
+				}
+			}
+			return true
+		})
+		st.defers = append(st.defers, s.Call)
+		return []Outcome{{kind: oNormal, st: st}}
+	case *ast.GoStmt, *ast.SelectStmt, *ast.SendStmt:
 		u.fail("statement outside the verified subset at %s", u.pos(s))
 	}
 	u.fail("unsupported statement %T at %s", s, u.pos(s))
@@ -537,7 +567,21 @@ func (u *Unit) execReturn(s *ast.ReturnStmt, st *State) []Outcome {
 	for i := range vals {
 		vals[i] = u.convert(vals[i], fr.sig.Results().At(i).Type(), st)
 	}
+	u.runDefers(st)
 	return []Outcome{{kind: oReturn, st: st, vals: vals}}
+}
+
+// runDefers executes the calls deferred on this path, last first (their results are discarded; an error
+// among them is an error that is dropped)
+func (u *Unit) runDefers(st *State) {
+	if len(u.inlineStack) > 0 {
+		return
+	}
+	ds := st.defers
+	st.defers = nil
+	for i := len(ds) - 1; i >= 0; i-- {
+		u.evalCall(ds[i], st)
+	}
 }
 
 func (u *Unit) curFrame() *retFrame { return u.frames[len(u.frames)-1] }
